@@ -286,6 +286,12 @@ def replay(fl, FA, clause, cls, vals):
             got2 = np.asarray(term.membership(arr.reshape(1, -1)), dtype=float)
             exp = np.array([mu(v) for v in keep])
             ok = got1.shape == arr.shape and got2.shape == (1, len(arr)) and all(FA.same(u, v) for u, v in zip(got1, exp)) and all(FA.same(u, v) for u, v in zip(got2[0], exp))
+            if ok:
+                a32 = keep.astype(np.float32)
+                got32 = np.asarray(term.membership(a32), dtype=float)
+                exp32 = np.array([np.float64(term.membership(v)) for v in a32])
+                if not (got32.shape == a32.shape and all(FA.same(u, v) for u, v in zip(got32, exp32))):
+                    return {"failed": True, "expected": exp32.tolist(), "observed": got32.tolist(), "call": f"{desc}.membership(np.array({a32.tolist()}, dtype=np.float32))  # each element alone: [t.membership(v) for v in array]"}
             return {"failed": not ok, "expected": exp.tolist(), "observed": got1.tolist(), "call": f"{desc}.membership(array)"}
         except Exception as ex:  # noqa
             return {"failed": True, "expected": "element-wise result", "observed": f"{type(ex).__name__}: {ex}", "call": f"{desc}.membership(array)"}
@@ -318,6 +324,15 @@ def replay(fl, FA, clause, cls, vals):
                     return {"failed": True, "expected": "argument array unchanged: " + str(keep.tolist()), "observed": arr.tolist(), "call": f"{desc}.tsukamoto(array) modified the caller's array"}
                 exp = np.array([np.float64(term.tsukamoto(v)) for v in keep])
                 ok = got.shape == arr.shape and all(FA.same(u, v) for u, v in zip(got, exp))
+                if ok:
+                    # an array of a narrower float type: still the element-wise results (each element given alone)
+                    a32 = arr.astype(np.float32)
+                    a32 = a32[(a32 > 0) & (a32 < np.float32(h))]
+                    if a32.size:
+                        got32 = np.asarray(term.tsukamoto(a32), dtype=float)
+                        exp32 = np.array([np.float64(term.tsukamoto(v)) for v in a32])
+                        if not (got32.shape == a32.shape and all(FA.same(u, v) for u, v in zip(got32, exp32))):
+                            return {"failed": True, "expected": exp32.tolist(), "observed": got32.tolist(), "call": f"{desc}.tsukamoto(np.array({a32.tolist()}, dtype=np.float32))  # each element alone: [t.tsukamoto(v) for v in array]"}
                 return {"failed": not ok, "expected": exp.tolist(), "observed": got.tolist(), "call": f"{desc}.tsukamoto(array)"}
             except Exception as ex:  # noqa
                 return {"failed": True, "expected": "element-wise result", "observed": f"{type(ex).__name__}: {ex}", "call": f"{desc}.tsukamoto(array)"}
